@@ -104,7 +104,8 @@ Proof.
   match goal with
   | |- context [local_day (r_zone r) (a - ?lb)] =>
     replace lb with (lookback_buffer r)
-      by (unfold lookback_buffer; symmetry; apply (lookback_ladder (r_freq r) (r_interval r) (r_dur r)))
+      by (first [ unfold lookback_buffer; symmetry; apply (lookback_ladder (r_freq r) (r_interval r) (r_dur r))
+                | unfold lookback_buffer, period_secs, DAY; destruct (r_freq r); cbn [freq_eqb]; lia ])
   end.
   destruct (safe_anchor r (local_day (r_zone r) (a - lookback_buffer r))) as [dtstart|] eqn:Ea; [|discriminate].
   rewrite (Ha _ _ Ea).
